@@ -1,5 +1,162 @@
 import Driver.Common
-/-! Driver for C06 (stub: not built yet). -/
-def main (_args : List String) : IO UInt32 := do
-  IO.eprintln "C06: driver not implemented"
-  return 2
+import CoapVerif.Model.Retransmit
+import CoapVerif.Spec.Retransmit
+/-!
+Driver for C06.  One scenario per line (ops separated by `|`, see harness/c06/c06_test.go).
+`model` prints the model's prediction, one segment `tx=… ret=… oth=…` per op; `judge` takes
+`<scenario> || <observed segments>` and evaluates the specification's judge on the observed history.
+-/
+namespace Driver.C06
+open CoapVerif
+open CoapVerif.Model.Retransmit (Params State Entry Res Phase)
+
+inductive Op
+  | cfg (a m n : Nat)
+  | send (id : Nat) (dl : Option Nat)
+  | sleep (d : Nat)
+  | tick (ahead : Nat)
+  | ack (id : Nat)
+  | rst (id : Nat)
+  | pig (id tag : Nat)
+  | resp (id : Nat) (con : Bool) (tag : Nat)
+  | cancel (id : Nat)
+  | mut (id : Nat)
+
+def parseOp (s : String) : Option Op :=
+  match words s with
+  | ["cfg", a, m, n] => do some (.cfg (← a.toNat?) (← m.toNat?) (← n.toNat?))
+  | ["send", id, dl] => do
+    let d ← if dl = "-" then some none else dl.toNat?.map some
+    some (.send (← id.toNat?) d)
+  | ["sleep", d] => d.toNat?.map .sleep
+  | ["tick", a] => a.toNat?.map .tick
+  | ["ack", id] => id.toNat?.map .ack
+  | ["rst", id] => id.toNat?.map .rst
+  | ["pig", id, tag] => do some (.pig (← id.toNat?) (← tag.toNat?))
+  | ["resp", id, c, tag] => do
+    let con ← if c = "con" then some true else if c = "non" then some false else none
+    some (.resp (← id.toNat?) con (← tag.toNat?))
+  | ["cancel", id] => id.toNat?.map .cancel
+  | ["mut", id] => id.toNat?.map .mut
+  | _ => none
+
+def parseOps (line : String) : Option (List Op) := (line.splitOn "|").mapM parseOp
+
+def fmtRes : Res → String
+  | .ok tag => s!"ok:{tag}"
+  | .ctx => "ctx"
+  | .deadline => "deadline"
+  | .nstart => "nstart"
+
+def insertBy {α : Type} (key : α → Nat) (x : α) : List α → List α
+  | [] => [x]
+  | y :: r => if key y ≤ key x then y :: insertBy key x r else x :: y :: r
+
+def sortByKey {α : Type} (key : α → Nat) (l : List α) : List α := l.foldl (fun acc x => insertBy key x acc) []
+
+def joinOrDash (xs : List String) : String := if xs.isEmpty then "-" else ",".intercalate xs
+
+def fmtSeg (entries : List Entry) (oth : List String) : String :=
+  let txs := entries.filterMap (fun e => match e with | .tx id _ t _ => some (id, t) | _ => none)
+  let rets := entries.filterMap (fun e => match e with | .ret id r t => some (id, r, t) | _ => none)
+  let txs := sortByKey (fun (p : Nat × Nat) => p.1) txs
+  let rets := sortByKey (fun (p : Nat × Res × Nat) => p.1) rets
+  s!"tx={joinOrDash (txs.map (fun p => s!"{p.1}.{p.2}.="))} ret={joinOrDash (rets.map (fun p => s!"{p.1}.{fmtRes p.2.1}.{p.2.2}"))} oth={joinOrDash oth}"
+
+/-- Model events an op stands for in state `s` (sleep is expanded against the state). -/
+def opEvents (P : Params) (s : State) : Op → List Model.Retransmit.Ev
+  | .cfg _ _ _ => []
+  | .send id dl => [.send id (2 * id) (dl.map (· + s.now))]
+  | .sleep d => Model.Retransmit.sleepEvents P s d
+  | .tick a => [.tick a]
+  | .ack id => [.recvMid id .ack]
+  | .rst id => [.recvMid id .rst]
+  | .pig id tag => [.recvMid id (.pig tag)]
+  | .resp id _ tag => [.resp id tag]
+  | .cancel id => [.cancel id .ctx]
+  | .mut id => [.mut id (2 * id + 1)]
+
+def opOther : Op → List String
+  | .resp _ true _ => ["ack.0"]     -- a confirmable separate response is acknowledged
+  | _ => []
+
+def model (line : String) : String :=
+  match parseOps line with
+  | some (.cfg a m n :: ops) =>
+    let P : Params := ⟨a, m, n⟩
+    let (_, segs) := ops.foldl (fun (acc : State × List String) op =>
+      let s := acc.1
+      let s' := Model.Retransmit.runFrom P s (opEvents P s op)
+      let added := s'.log.take (s'.log.length - s.log.length)
+      (s', acc.2 ++ [fmtSeg added (opOther op)])) (Model.Retransmit.init, ["tx=- ret=- oth=-"])
+    " | ".intercalate segs
+  | _ => "bad-op"
+
+/-! ### judge -/
+open CoapVerif.Spec.Retransmit (Step Tx Ret Cfg Verdict)
+
+def toSpecEv : Op → Spec.Retransmit.Ev
+  | .cfg _ _ _ => .sleep 0
+  | .send id dl => .send id dl
+  | .sleep d => .sleep d
+  | .tick a => .tick a
+  | .ack id => .recvMid id .ack
+  | .rst id => .recvMid id .rst
+  | .pig id tag => .recvMid id (.pig tag)
+  | .resp id c tag => .resp id c tag
+  | .cancel id => .cancel id
+  | .mut id => .mut id
+
+def parseRes (s : String) : Option Spec.Retransmit.Res :=
+  if s.startsWith "ok:" then (s.drop 3).toString.toNat?.map .ok
+  else match s with
+    | "ctx" => some .ctx | "deadline" => some .deadline | "nstart" => some .nstart | _ => some .other
+
+def parseList {α : Type} (s : String) (f : String → Option α) : Option (List α) :=
+  if s = "-" then some [] else (s.splitOn ",").mapM f
+
+def parseSeg (s : String) : Option (List Tx × List Ret) :=
+  match words s with
+  | [t, r, _o] =>
+    if !(t.startsWith "tx=") || !(r.startsWith "ret=") then none else do
+    let txs ← parseList (t.drop 3).toString (fun x => match x.splitOn "." with
+      | [id, tm, sm] => do some ⟨← id.toNat?, ← tm.toNat?, sm == "="⟩
+      | _ => none)
+    let rets ← parseList (r.drop 4).toString (fun x => match x.splitOn "." with
+      | [id, res, tm] => do some ⟨← id.toNat?, ← parseRes res, ← tm.toNat?⟩
+      | _ => none)
+    some (txs, rets)
+  | _ => none
+
+def fmtVerdict : Verdict → String
+  | .ok => "ok" | .tooMany => "too-many-copies" | .tooEarly => "copy-too-early" | .notIdentical => "copy-not-identical"
+  | .copyAfterStop => "copy-after-stop" | .unknownRequest => "unknown-request" | .doubleReturn => "double-return"
+  | .spuriousSuccess => "spurious-success" | .noSuccess => "no-success" | .nstart => "nstart-exceeded"
+
+def judgeLine (line : String) : String :=
+  match line.splitOn " || " with
+  | [inp, obs] =>
+    match parseOps inp, (obs.splitOn " | ").mapM parseSeg with
+    | some (.cfg a m n :: ops), some (_ :: segs) =>
+      if ops.length != segs.length then "violates unparsable-observation" else
+      let steps : List Step := (ops.zip segs).map (fun p => ⟨toSpecEv p.1, p.2.1, p.2.2⟩)
+      let c : Cfg := ⟨a, m, n⟩
+      match Spec.Retransmit.judge c steps with
+      | .ok => "ok"
+      | v =>
+        let k := (List.range (steps.length + 1)).find? (fun k => Spec.Retransmit.judge c (steps.take k) != .ok)
+        s!"violates {fmtVerdict v} step={k.getD 0}"
+    | _, _ => "violates unparsable-observation"
+  | _ => "bad-op"
+
+end Driver.C06
+
+def main (args : List String) : IO UInt32 := do
+  let stdin ← IO.getStdin
+  let stdout ← IO.getStdout
+  match args with
+  | ["model"] => Driver.forLines stdin fun l => stdout.putStrLn (Driver.C06.model l)
+  | ["judge"] => Driver.forLines stdin fun l => stdout.putStrLn (Driver.C06.judgeLine l)
+  | _ => IO.eprintln "usage: drv_c06 model|judge"; return 2
+  stdout.flush
+  return 0
